@@ -54,3 +54,35 @@ pub(crate) fn emit(event: VerifEvent) {
         sink(&event);
     }
 }
+
+/// Small integer for a thread id (the number in its `Debug` representation).
+pub(crate) fn tid(id: crate::sync::thread::ThreadId) -> u64 {
+    let s = format!("{id:?}");
+    let digits: String = s.chars().filter(|c| c.is_ascii_digit()).collect();
+    digits.parse().unwrap_or(0)
+}
+
+/// The number hooks use for the current thread; harnesses call this to learn their own number.
+pub fn current_tid() -> u64 {
+    tid(crate::sync::thread::current().id())
+}
+
+/// Emit a protocol event (only evaluated when a sink is installed and enabled).
+#[inline]
+pub(crate) fn proto(
+    name: &'static str,
+    key: Option<crate::DatabaseKeyIndex>,
+    key2: Option<crate::DatabaseKeyIndex>,
+    args: [u64; 4],
+    text: &'static str,
+) {
+    if enabled() {
+        emit(VerifEvent {
+            name,
+            key,
+            key2,
+            args,
+            text,
+        });
+    }
+}
